@@ -219,7 +219,7 @@ Proof. intros Hn Hb Hl. cbn [wf_item]. unfold wf_pkt_parts, ex_af, wf_misc. cbn 
 Lemma ex_items_wf : Forall (wf_item 481) ex_items.
 Proof. unfold ex_items.
   apply Forall_cons; [apply ex_mine; [lia|vm_compute; reflexivity|vm_compute; reflexivity]|].
-  apply Forall_cons; [split; [vm_compute; reflexivity|vm_compute; discriminate]|].
+  apply Forall_cons; [split; [vm_compute; reflexivity|split; [apply is_bytes_sweep; vm_compute; reflexivity|vm_compute; discriminate]]|].
   apply Forall_cons; [apply ex_mine; [lia|vm_compute; reflexivity|vm_compute; reflexivity]|].
   apply Forall_cons; [apply ex_mine; [vm_compute; discriminate|vm_compute; reflexivity|vm_compute; reflexivity]|].
   constructor.
